@@ -316,19 +316,26 @@ def catalogue(tier, rng, max_n=None):
                 cat.append(Code("CyclicCodeEncoder", "n=%d,g=%d,information_set=%s" % (n, g, tag),
                                 (lambda n=n, g=g, tag=tag: E.CyclicCodeEncoder(n, generator_polynomial=g, information_set=tag)),
                                 {"n": n, "g": g, "iset": tag}, tags=["cyclic"]))
+    # the enumeration boundary of CyclicCodeEncoder.minimum_distance (dimension 12): dimensions 11..13 at larger n
+    for n in (18, 20, 21):
+        for g in divisors_of_xn1(n):
+            if n - (g.bit_length() - 1) in (11, 12, 13) and (not quick or g % 3 != 1 or n == 18):
+                cat.append(Code("CyclicCodeEncoder", "n=%d,g=%d,information_set=right" % (n, g),
+                                (lambda n=n, g=g: E.CyclicCodeEncoder(n, generator_polynomial=g, information_set="right")),
+                                {"n": n, "g": g, "iset": "right"}, tags=["cyclic"]))
     for nm in ("Hamming(7,4)", "Golay(23,12)", "BCH(15,7)", "BCH(15,5)", "Hamming(15,11)"):
         cat.append(Code("CyclicCodeEncoder", "standard=%s" % nm, (lambda nm=nm: E.CyclicCodeEncoder.create_standard_code(nm)), {"std": nm, "iset": "left"}, tags=["cyclic"]))
     # BCH
-    for mu in range(2, 6 if quick else 7):
+    for mu in range(2, 7):
         n = 2 ** mu - 1
-        if n > max_n:
-            continue
         try:
             from kaira.models.fec.encoders.bch_code import get_valid_bose_distances
             deltas = get_valid_bose_distances(mu)
         except Exception:
             deltas = list(range(2, n + 1))
         for delta in deltas:
+            if n > max_n and delta > 5:      # quick tier: of the length-63 codes only the high-rate ones
+                continue
             for tag in ("left", "right"):
                 cat.append(Code("BCHCodeEncoder", "mu=%d,delta=%d,information_set=%s" % (mu, delta, tag),
                                 (lambda mu=mu, delta=delta, tag=tag: E.BCHCodeEncoder(mu, delta, information_set=tag)),
